@@ -235,6 +235,8 @@ class CasJsonDeserializer:
             # We need to make sure that the sofa gets the real xmi, see #155
             if fs_id is not None:
                 view.get_sofa().xmiID = fs_id
+            if sofa_num is not None:
+                view.get_sofa().sofaNum = sofa_num
 
             return view
         else:
